@@ -194,7 +194,11 @@ impl WorkerResources {
     pub fn add(&mut self, rq: &ResourceRequest, all: &WorkerResources) {
         for entry in rq.entries() {
             if let Some(amount) = entry.request.amount_or_none_if_all() {
-                self.n_resources[entry.resource_id] += amount;
+                // `remove` saturates (a worker may be overbooked for a while when it starts a
+                // prefilled task on its own), so giving the same amounts back could exceed what the
+                // worker has
+                self.n_resources[entry.resource_id] =
+                    (self.n_resources[entry.resource_id] + amount).min(all.get(entry.resource_id));
             } else {
                 self.n_resources[entry.resource_id] = all.get(entry.resource_id);
             }
